@@ -436,6 +436,9 @@ func shrinkAndSave(p *propDef, o *outcome, ks []known) string {
 	pruneUniverse(final)
 	// verify twice in fresh processes
 	workerEnv = nil
+	if v.Class == "NO_PROGRESS" {
+		workerEnv = confirmEnv // the minimised run must fail the way the confirmed one did, not merely look slow
+	}
 	r1, e1 := runWorker(final, "")
 	r2, e2 := runWorker(final, "")
 	note := ""
